@@ -139,7 +139,8 @@ class AbstractAxis(AbstractHasMetadata):
         slice(1, 3, None)
         """
         values = self.values[()]
-        tol=tol or self._tol
+        if tol is None:
+            tol = self._tol # axis-level tolerance, unless one is given (0 is a tolerance)
 
         if tol is not None and not self.is_numeric():
             tol = None # ignore tol parameter for non-numeric axes (an error will be raised if element is not found)
